@@ -307,6 +307,11 @@ func checkC02(c *Check) {
 		g := NewGen(seed, cfg)
 		cases = append(cases, BashCase{Key: fmt.Sprintf("random/c02/seed=%d", seed), Prog: g.Program(), NonTrivial: nontrivial})
 	}
+	if c.Thorough() {
+		oracleSelfCheck(c, cases, 3000)
+	} else {
+		oracleSelfCheck(c, cases, 300)
+	}
 	runProbes(c, bashProbeJudge)
 	runBashCases(c, cases)
 }
